@@ -3,7 +3,7 @@
    not contain the input, so TLC explores it completely: the invariants below hold for byte streams of
    every length, hence for every chunking of every message sequence and every malformed header.   *)
 EXTENDS Framing
-SmallMsgs == << [kind |-> "call", idk |-> "num", id |-> [t |-> "num", v |-> "1", n |-> 1], blen |-> 1, rlen |-> 1] >>
+SmallMsgs == << [kind |-> "call", idk |-> "num", id |-> [t |-> "num", v |-> "1", n |-> 1], pay |-> "object", blen |-> 1, rlen |-> 1] >>
 VariantsDef == {"none"}
 
 ClosedInit == InitWith(<<>>, [kind |-> "none", at |-> 0, cut |-> 0])
